@@ -16,6 +16,12 @@ CHECKS = {
     "C01": ("exploration", E1 + " (all series/parallel skeletons up to L leaves x leaf palette x 3 construction routes x frequency vectors)",
             "Every canonical series/parallel skeleton with <= 3 (quick) / <= 5 (thorough) leaves and the object-only shapes, every filling from a 15-entry palette that forces open, shorted, partially shorted, tiny and huge branches and container elements, built from objects, from CDC text and with CircuitBuilder, evaluated on six frequency vectors and one frequency at a time; compared with a plain-complex reference composition. Exhaustive per bound; larger skeletons only as seeded random extras.",
             "Leaf impedances are taken from the leaf element's own scalar get_impedances (C02 is responsible for leaves); tolerance 1e-12 x cancellation factor.", "DESIGN.md section 4, C01"),
+    "C02": ("exploration", E1 + " (parameter grid in the limit box x frequency grid, 50-digit mpmath adjudication of the documented equation)",
+            "For each of the 22 non-container classes the cartesian grid of per-parameter value sets inside the class limit box x 16 (46) frequencies: numeric impedance vs the documented equation, decided by a 50-digit evaluation with a conditioning filter; all 36 open/short/finite configurations of the general transmission line x contents x L numeric vs symbolic; every circuit skeleton <= 3 leaves over an 8-entry palette symbolic vs numeric; reported 0 Hz / infinite-frequency limits vs converged finite-frequency values. Exhaustive over the declared grid only - the continuum of parameter values cannot be covered by this family.",
+            "Class._equation is taken as the documented equation; refusals (NaN/inf impedance errors) are judged only inside the moderate sub-box default x [1e-3,1e3]; ill-conditioned points (reference moves > 1e-7 under +-8 ulp) are counted and skipped.", "DESIGN.md section 4, C02"),
+    "C03": ("exploration", E1 + " (circuit ASTs x grammar-directed printer spellings with <= k switches off canonical; the generator is the oracle)",
+            "Every circuit AST over skeletons <= 3 (4) leaves with one focus leaf ranging over ~50 element variants (labels, fixed flags, values, limits incl. beyond the class defaults, container sub-circuits) is built through the public API, serialised with 1/3/12/17 decimals, parsed and compared with the AST; fixed point, copy/deepcopy and impedance clauses; every spelling with <= 2 (3) of 12 printer switches off the canonical position must parse to the denoted circuit. Deviation-bounded and exhaustive within the alphabet.",
+            "States are reached by setter calls in an order chosen by the harness; class-default sub-circuits are read from the library.", "DESIGN.md section 4, C03"),
     "C04": ("exploration", E1 + " (all atom sequences up to N, all single/double mutations of valid codes)",
             "Every string over a 28-atom lexical alphabet up to 4 (quick) / 5 (thorough) atoms, plus every single mutation of ~380 grammar-derived valid codes, is parsed by the real parse_cdc; outcome must be a Circuit, a parsing/tokenizing error or an explained ValueError; accepted strings must simulate (or raise an impedance error) and their serialisation must re-parse. Exhaustive within the stated alphabet and bound, which is the right level for a totality claim over strings.",
             "Strings outside the atom alphabet are only reached through mutations; a parse > 2 s counts as a hang.", "DESIGN.md section 4, C04"),
